@@ -107,6 +107,11 @@ macro_rules! common {
     ($op:expr, $a:expr, $T:ty, $UT:ty, $IT:ty) => {{
         let op: &str = $op;
         let a: &[&str] = $a;
+        match op {
+            "shl_u32_inh" => { if !mode_ok(a[0]) { return Some("skip".into()); } return Some(<$T>::shl(<$T>::from_hex(a[1]), a[2].parse().unwrap()).out()) }
+            "shr_u32_inh" => { if !mode_ok(a[0]) { return Some("skip".into()); } return Some(<$T>::shr(<$T>::from_hex(a[1]), a[2].parse().unwrap()).out()) }
+            _ => {}
+        }
         forms!(op, a, $T, "add", Add, add, AddAssign, add_assign, <$T>::add);
         forms!(op, a, $T, "sub", Sub, sub, SubAssign, sub_assign, <$T>::sub);
         forms!(op, a, $T, "mul", Mul, mul, MulAssign, mul_assign, <$T>::mul);
@@ -124,8 +129,6 @@ macro_rules! common {
             "not_v" => return Some(<$T as Not>::not(<$T>::from_hex(a[1])).out()),
             "not_r" => return Some(<&$T as Not>::not(&<$T>::from_hex(a[1])).out()),
             "not_inh" => return Some(<$T>::not(<$T>::from_hex(a[1])).out()),
-            "shl_u32_inh" => return Some(<$T>::shl(<$T>::from_hex(a[1]), a[2].parse().unwrap()).out()),
-            "shr_u32_inh" => return Some(<$T>::shr(<$T>::from_hex(a[1]), a[2].parse().unwrap()).out()),
             "sum" => return Some(list(a[1]).into_iter().sum::<$T>().out()),
             "sum_ref" => return Some(list(a[1]).iter().sum::<$T>().out()),
             "product" => return Some(list(a[1]).into_iter().product::<$T>().out()),
@@ -151,14 +154,16 @@ macro_rules! imp {
         type UT = bnum::$U<$N>;
         type IT = bnum::$I<$N>;
         fn run_u(op: &str, a: &[&str]) -> Option<String> {
-            common!(op, a, UT, UT, IT);
             let d = |s: &str| <$D>::from_str_radix(s, 16).expect("digit");
             match op {
-                "add_digit" => Some(<UT as Add<$D>>::add(UT::from_hex(a[1]), d(a[2])).out()),
-                "div_digit" => Some(<UT as Div<$D>>::div(UT::from_hex(a[1]), d(a[2])).out()),
-                "rem_digit" => Some(format!("{:x}", <UT as Rem<$D>>::rem(UT::from_hex(a[1]), d(a[2])))),
-                _ => None,
+                "add_digit" | "div_digit" | "rem_digit" if !mode_ok(a[0]) => return Some("skip".into()),
+                "add_digit" => return Some(<UT as Add<$D>>::add(UT::from_hex(a[1]), d(a[2])).out()),
+                "div_digit" => return Some(<UT as Div<$D>>::div(UT::from_hex(a[1]), d(a[2])).out()),
+                "rem_digit" => return Some(format!("{:x}", <UT as Rem<$D>>::rem(UT::from_hex(a[1]), d(a[2])))),
+                _ => {}
             }
+            common!(op, a, UT, UT, IT);
+            None
         }
         fn run_i(op: &str, a: &[&str]) -> Option<String> {
             common!(op, a, IT, UT, IT);
